@@ -68,6 +68,10 @@ func (s *sim) checkAll() {
 	if n := s.node.locksetChecks; n > 0 {
 		c.ProbeN("history-op-lock-probed", n)
 		s.node.locksetChecks = 0
+		if s.node.locksetCommittee > 0 {
+			c.ProbeN("committee-history-op-lock-probed", s.node.locksetCommittee)
+			s.node.locksetCommittee = 0
+		}
 		if s.node.locksetRollbacks > 0 {
 			c.ProbeN("state-history-rollback-lock-probed", s.node.locksetRollbacks)
 			s.node.locksetRollbacks = 0
@@ -76,7 +80,7 @@ func (s *sim) checkAll() {
 	}
 	for _, l := range s.node.lockset {
 		c.Violate("C40", "lock-discipline", "C40/lockset/"+l,
-			"the DPoS state was rewritten through its change history (%s): a state query holding the read lock at that moment reads maps that are being written", l)
+			"DPoS / CR state was rewritten through its change history without its owner's lock (%s): a state query holding the read lock at that moment reads maps that are being written", l)
 	}
 	s.node.lockset = nil
 
